@@ -116,6 +116,15 @@ def finish (σ : St) (ig : Integ) (res : String) (nlog : Nat) (logtime : Int) : 
                     ++ (if nlog = 0 then [Msg.propfail "success_is_logged" "success-not-logged" s!"integration {ig.idx}: delivered at {o.stop}, never recorded"] else [])
         | none => [])
     ++ (if nlog > 1 then [Msg.propfail "log_only_after_success" "logged-twice" s!"integration {ig.idx}: {nlog} log writes"] else [])
+    -- `sibling_isolated` / `recoverable_retried_until_deadline` on the implementation's own observations: an integration
+    -- that has something to send and whose cluster wait ends before the flush deadline makes its first attempt (at the
+    -- end of the wait), whatever its siblings do - hang, fail until the deadline - and however many they are
+    ++ (if !waitFails ∧ dedupPass ∧ !nothing ∧ n = 0 then
+          (if σ.integs.length > 1 then
+             [Msg.propfail "sibling_isolated" "starved-by-siblings"
+               s!"integration {ig.idx} of {σ.integs.length}: never attempted (result {res}, {nlog} log writes) although its wait ends at {σ.wait} < D={σ.D}"]
+           else [Msg.propfail "recoverable_retried_until_deadline" "never-attempted" s!"integration {ig.idx}: no attempt, result {res}, wait={σ.wait} D={σ.D}"])
+        else [])
     ++ (match ig.atts.head? with
         | some o => if o.start ≠ σ.wait then
             (if σ.integs.length > 1 then [Msg.propfail "sibling_isolated" "delayed-by-sibling" s!"integration {ig.idx}: first attempt at {o.start}, expected {σ.wait}"]
@@ -131,6 +140,10 @@ def finish (σ : St) (ig : Integ) (res : String) (nlog : Nat) (logtime : Int) : 
     ++ (if waitFails then [.tag "wait:deadline"] else [])
     ++ (if ig.atts.any (·.ret = "ctx") then [.tag "att:cut-by-deadline"] else [])
     ++ (if n ≥ 4 then [.tag "att:4+"] else [])
+    ++ (if σ.integs.length > 4 then [.tag "fanout:5+"] else [])
+    ++ (if σ.integs.length > 4 ∧ okAtt.isSome ∧
+           ((σ.integs.takeWhile (·.idx ≠ ig.idx)).filter fun j => !j.atts.isEmpty ∧ j.atts.all (fun o => o.ret = "rec" ∨ o.ret = "ctx")).length ≥ 4
+        then [.tag "fanout:healthy-behind-4-failing"] else [])
   diffs ++ pf ++ tags
 
 def step (σ : St) (op obs : List String) : St × List Msg :=
